@@ -70,6 +70,12 @@ def gen_scripts(ctx, quick):
         base.update({"paced": True, "stallMs": rnd.choice([0, 20]), "paceUs": rnd.choice([1000, 2000]), "burst": rnd.choice([300, 700]),
                      "shutMs": 0, "shut2Ms": rnd.choice([5, 20, 60])})
         scripts.append(base)
+    # directed: a backlog that nobody has triggered the (externally scheduled) writer for is still in the buffer when Shutdown
+    # is called, and the adapter is slow: writing it takes far longer than the writer's idle timeout; all of it must be written
+    for k, (burst, slow) in enumerate([(400, 100), (150, 400)][:(2 if quick else 2)]):
+        base = dict(scripts[k])
+        base.update({"paced": True, "stallMs": 10000, "paceUs": 1000, "burst": burst, "shutMs": 0, "shut2Ms": 0, "slowUs": slow})
+        scripts.append(base)
     # pulse runs (free-running writer): the writer is woken by forced emptying at a batch boundary
     for k in range(4 if quick else 24):
         base = dict(scripts[rnd.randrange(len(scripts))])
